@@ -156,7 +156,7 @@ def generate(rng, tier, prop='C16'):
                     op['mode'] = 'nowait'
                 elif r < 0.5:
                     op['mode'] = 'timed'
-                    op['timeout'] = rng.choice([0.0, 0.05, 0.3, 1.0, 3.0])
+                    op['timeout'] = rng.choice([0.0, 0, 0.05, 0.3, 1.0, 3.0])
             if kind == 'JoinableQueue':
                 op['td'] = rng.choice([0, 0, 1, 3, 0.2])       # int = ticks, float = seconds before task_done
             ops.append(op)
@@ -182,6 +182,7 @@ def generate(rng, tier, prop='C16'):
         'stalls': sorted(stalls),
         # forced pre-emptions at traced-line counts inside queues.py (DESIGN 3.5 item 2)
         'line_preempt': sorted(rng.randint(1, 800) for _ in range(rng.randint(1, 3))) if rng.random() < 0.2 else [],
+        'func_preempt': rng.choice([0, 0, 0, 0.3, 0.6]),
     }
 
 
@@ -227,7 +228,7 @@ def shrink(case):
         c = _copy(case)
         c['joiners'].pop()
         yield _renumber(c)
-    for key, val in (('stalls', []), ('line_preempt', []), ('short_io', False), ('eintr', 0.0), ('final_join', False),
+    for key, val in (('stalls', []), ('line_preempt', []), ('func_preempt', 0), ('short_io', False), ('eintr', 0.0), ('final_join', False),
                      ('extra_task_done', False), ('policy', 'random')):
         if case.get(key) != val:
             c = _copy(case)
@@ -373,7 +374,11 @@ def execute(case, seed, choices=None):
                 kern.stall(live[pick % len(live)], dt)
     if stalls:
         k.fault_hook = fault_hook
-    if case.get('line_preempt'):
+    if case.get('func_preempt'):
+        # a thread can lose the processor between any two lines of put() / the lazy start of the feeder thread
+        k.enable_func_preemption(('billiard/queues.py',), ('put', '_start_thread', '_after_fork'),
+                                 case['func_preempt'], 0.6)
+    elif case.get('line_preempt'):
         k.enable_line_preemption(('billiard/queues.py',), list(case['line_preempt']))
 
     # ------------------------------------------------------------------ operations
@@ -437,6 +442,10 @@ def execute(case, seed, choices=None):
             tmo = op.get('timeout')
             try:
                 item = q.get_nowait() if mode == 'nowait' else q.get(True, tmo)
+                if mode == 'timed' and tmo == 0 and k.now - t0 > 0.05 and not case.get('stalls'):
+                    # a zero timeout is "look once": it may find an item, it never waits for one to arrive
+                    bad('C16.d', 'zero-timeout-get-waited', 'get(True, %r) returned an item after %.3f s'
+                        % (tmo, k.now - t0))
             except Empty:
                 now = k.now
                 st['g_beg'] -= 1
